@@ -6,7 +6,8 @@
 // Operators: relational (< <= > >= == !=), logical (&& ||), arithmetic (+ -), boolean
 // literals, small integer literals (n -> n+1), removal of a `return` carrying an error inside
 // an `if err != nil` block (the error is ignored), removal of a `continue`/`break`, negation
-// of an if condition that is a call or an identifier. The mutants are meant to be filtered by
+// of an if condition that is a call or an identifier. With -stmts: the second generation
+// (statement deletion) instead. The mutants are meant to be filtered by
 // the repository's own test suite first (tools/mutrun.sh); what survives that is offered to
 // the checks.
 package main
@@ -26,6 +27,8 @@ import (
 	"strings"
 )
 
+var stmts *bool
+
 type site struct {
 	desc  string
 	apply func() (undo func())
@@ -35,6 +38,7 @@ func main() {
 	repo := flag.String("repo", "/repo", "")
 	out := flag.String("out", "/tmp/mutants", "")
 	only := flag.String("only", "", "comma separated path prefixes (relative)")
+	stmts = flag.Bool("stmts", false, "statement-deletion operators only (second generation: call statements, assignments, inc/dec, defers, whole guard ifs)")
 	flag.Parse()
 	_ = os.MkdirAll(*out, 0o755)
 	var files []string
@@ -96,6 +100,11 @@ func mutateFile(repo, rel, out string, base int) int {
 	}
 	line := func(p token.Pos) int { return fset.Position(p).Line }
 	ast.Inspect(f, func(n ast.Node) bool {
+		if *stmts {
+			if _, ok := n.(*ast.BlockStmt); !ok {
+				return true
+			}
+		}
 		switch x := n.(type) {
 		case *ast.BinaryExpr:
 			if x.Op == token.ADD {
@@ -160,7 +169,43 @@ func mutateFile(repo, rel, out string, base int) int {
 			}
 		case *ast.BlockStmt:
 			for i, st := range x.List {
-				if bs, ok := st.(*ast.BranchStmt); ok && (bs.Tok == token.CONTINUE || bs.Tok == token.BREAK) && bs.Label == nil {
+				if *stmts {
+					drop := ""
+					switch y := st.(type) {
+					case *ast.ExprStmt:
+						if _, ok := y.X.(*ast.CallExpr); ok {
+							drop = "call statement"
+						}
+					case *ast.AssignStmt:
+						if y.Tok != token.DEFINE {
+							drop = "assignment"
+						}
+					case *ast.IncDecStmt:
+						drop = "inc/dec"
+					case *ast.DeferStmt:
+						drop = "defer"
+					case *ast.IfStmt:
+						if y.Else == nil && y.Init == nil {
+							drop = "whole if"
+							// `if err != nil { return … }` is the first generation's "drop error return"
+							if be, ok := y.Cond.(*ast.BinaryExpr); ok && be.Op == token.NEQ && len(y.Body.List) == 1 {
+								if id, ok := be.X.(*ast.Ident); ok && strings.HasPrefix(strings.ToLower(id.Name), "err") {
+									if _, ok := y.Body.List[0].(*ast.ReturnStmt); ok {
+										drop = ""
+									}
+								}
+							}
+						}
+					}
+					if drop != "" {
+						x, i, old := x, i, st
+						sites = append(sites, site{fmt.Sprintf("%s:%d drop %s", rel, line(st.Pos()), drop), func() func() {
+							x.List[i] = &ast.EmptyStmt{Implicit: false}
+							return func() { x.List[i] = old }
+						}})
+					}
+				}
+				if bs, ok := st.(*ast.BranchStmt); ok && !*stmts && (bs.Tok == token.CONTINUE || bs.Tok == token.BREAK) && bs.Label == nil {
 					x, i, old := x, i, st
 					sites = append(sites, site{fmt.Sprintf("%s:%d drop %s", rel, line(bs.Pos()), bs.Tok), func() func() {
 						x.List[i] = &ast.EmptyStmt{Implicit: false}
